@@ -149,7 +149,7 @@ def check_case(ctx, case):
         def observed_m():
             """for the magnitude tests: the observed catalog may hold events below the first magnitude edge (a catalog not cut at the
             forecast's minimum magnitude); they are in no magnitude bin, the tests work with the events that are"""
-            if not (case.get("obs_below_min") and n_obs):
+            if not ((case.get("obs_below_min") or case.get("obs_rejected_first")) and n_obs):
                 return observed()
             from csep.core.catalogs import CSEPCatalog
             region = S.region()
@@ -160,7 +160,27 @@ def check_case(ctx, case):
                 e[0] = "lowmag%d" % q
                 e[5] = S.edges[0] - S.hm * (0.5 + q)
                 extra.append(tuple(e))
-            return CSEPCatalog(data=evs[:1] + extra + evs[1:], region=region, name="obs")
+            if not case.get("obs_rejected_first"):
+                return CSEPCatalog(data=evs[:1] + extra + evs[1:], region=region, name="obs")
+            # "obs_rejected_first": the catalog also holds a (below-minimum) event OUTSIDE the spatial region, and was first handed to
+            # the spatial and pseudo-likelihood tests of ANOTHER forecast (same cells, another magnitude grid), which reject it - the
+            # documented ValueError of the cell lookup.  The magnitude tests that follow do not look at locations: they must answer
+            # as if those rejected requests had never been made.
+            out = list(extra[0])
+            out[0], out[2], out[3] = "outside", float(S.L.ey[0]) - 3.75, float(S.L.ex[0]) - 7.25
+            cat = CSEPCatalog(data=evs[:1] + extra + [tuple(out)] + evs[1:], region=region, name="obs")
+            try:
+                other = S.L.build("from_origins", magnitudes=numpy.array([x + 0.4 * S.hm for x in S.edges]))
+                fa = CatalogForecast(catalogs=[CSEPCatalog(data=[S.event(0, obs[0][0], 0)], region=other, name="c")], n_cat=1, region=other,
+                                     start_time=G.T0, end_time=G.T1, name="other")
+            except Exception:  # noqa: BLE001
+                return cat
+            for rejected in (CE.spatial_test, CE.pseudolikelihood_test):
+                try:
+                    rejected(fa, cat, verbose=False)
+                except Exception:  # noqa: BLE001
+                    ctx.count("rejected_requests_before_the_magnitude_tests")
+            return cat
 
         # ---------------- expected rates
         o = call(lambda: forecast().get_expected_rates())
@@ -497,6 +517,7 @@ def cases(draw):
             **({"filtered_extra": True} if draw(st.integers(0, 2)) == 0 else {}),
             **({"np_seed": True} if draw(st.integers(0, 2)) == 0 else {}),
             **({"obs_below_min": True} if draw(st.integers(0, 2)) == 0 else {}),
+            **({"obs_rejected_first": True} if draw(st.integers(0, 3)) == 0 else {}),
             **({"synthetic_roundoff": True} if draw(st.integers(0, 2)) == 0 else {}),
             **({"partial_quadtree": True} if draw(st.integers(0, 3)) == 0 else {})}
 
